@@ -57,7 +57,7 @@ func registry() core.Registry {
 		"C11": one(&sim.C11{}, &sim.Sim{Prop: "C11", P: nested(profC19, 0.15), NQuick: 300, NThor: 4000, FloorsQ: map[string]int{}}, &sim.Sim{Prop: "C11", P: nested(profC05, 0.15), NQuick: 300, NThor: 4000, FloorsQ: map[string]int{}}),
 		"C12": one(&sim.Sim{Prop: "C12", P: profC12, NQuick: 500, NThor: 5000, FloorsQ: map[string]int{"C12.writes-judged": 20000}}, &sim.Sim{Prop: "C12", P: nested(profC12, 0.12), NQuick: 250, NThor: 2500, FloorsQ: map[string]int{}}, &sim.Sim{Prop: "C12", P: big(profC12), NQuick: 40, NThor: 400, FloorsQ: map[string]int{}}),
 		"C13": one(&sim.Sim{Prop: "C13", P: profC13, NQuick: 500, NThor: 5000, FloorsQ: map[string]int{"C13.rs-creates-judged": 2000, "C13.rs-deletes-judged": 1500, "C13.podtemplate-judged": 5000}}, &sim.Sim{Prop: "C13", P: nested(profC13, 0.12), NQuick: 250, NThor: 2500, FloorsQ: map[string]int{}}, &sim.C13Conc{}, &fn.ManyRS{Prop: "C13"}, &sim.Sim{Prop: "C13", P: profC12, NQuick: 200, NThor: 2000, FloorsQ: map[string]int{}}),
-		"C05": one(&fn.C05{}, &sim.Sim{Prop: "C05", P: profC05, NQuick: 500, NThor: 6000, FloorsQ: map[string]int{"C05.sim-promotions-judged": 200, "C05.sim-reconciles-with-canary-candidate": 800}}, &sim.Sim{Prop: "C05", P: nested(profC05, 0.12), NQuick: 250, NThor: 3000, FloorsQ: map[string]int{}}, &fn.ManyRS{Prop: "C05"}, &fn.C05Restarts{}),
+		"C05": one(&fn.C05{}, &sim.Sim{Prop: "C05", P: profC05, NQuick: 500, NThor: 6000, FloorsQ: map[string]int{"C05.sim-promotions-judged": 200, "C05.sim-reconciles-with-canary-candidate": 800}}, &sim.Sim{Prop: "C05", P: nested(profC05, 0.12), NQuick: 250, NThor: 3000, FloorsQ: map[string]int{}}, &fn.ManyRS{Prop: "C05"}, &fn.C05Restarts{}, &sim.C05Script{}),
 		"C06": one(&fn.C06{}, &sim.Sim{Prop: "C06", P: profC07, NQuick: 300, NThor: 4000, FloorsQ: map[string]int{"C06.sim-syncs-of-failed-canary": 12}}, &sim.Sim{Prop: "C06", P: nested(profC07, 0.15), NQuick: 300, NThor: 4000, FloorsQ: map[string]int{}}, &sim.Sim{Prop: "C06", P: nested(profC19, 0.15), NQuick: 200, NThor: 3000, FloorsQ: map[string]int{}}),
 		"C09": one(&fn.C09{}, &sim.Sim{Prop: "C09", P: profC09, NQuick: 600, NThor: 6000, FloorsQ: map[string]int{"C09.acting-syncs": 2000, "C09.sim-creating-syncs-with-binding-ramp": 1500}}, &sim.Sim{Prop: "C09", P: nested(profC09, 0.12), NQuick: 300, NThor: 3000, FloorsQ: map[string]int{}}, &sim.Sim{Prop: "C09", P: big(profC09), NQuick: 40, NThor: 400, FloorsQ: map[string]int{}}, &sim.Sim{Prop: "C09", P: profC05, NQuick: 250, NThor: 2500, FloorsQ: map[string]int{}}),
 		"C10": one(&fn.C10{}, &sim.Sim{Prop: "C10", P: profC10, NQuick: 400, NThor: 5000, FloorsQ: map[string]int{"C10.sim-creates-with-annotation": 600, "C10.sim-creates-with-setting": 300, "C10.sim-update-deletes-of-own-pods-judged": 100, "C10.sim-pods-judged-at-fixpoint": 500}}, &sim.Sim{Prop: "C10", P: nested(profC10, 0.12), NQuick: 200, NThor: 2500, FloorsQ: map[string]int{}}),
